@@ -1,32 +1,46 @@
 (* Lock.v -- model of the workspace lock (internal/locking/workspace_locker.go), property C10.
-   Definitions only.  One event per file-system call of Lock()/Unlock(), any number of
-   processes, crashes anywhere.  DESIGN.md 5.C10 and B.3.
+   Definitions only.  One event per file-system call ON THE LOCK PATH of Lock()/Unlock(), any
+   number of processes, crashes anywhere.  DESIGN.md 5.C10 and B.3.
 
-   What each step mirrors (line numbers of workspace_locker.go at the time of writing):
-     TryCreate p  40      os.OpenFile(path, O_RDWR|O_CREATE|O_EXCL): success = a FRESH inode now
-                          named by the path (empty); EEXIST = go and read the file
-     WritePid p   42-43   file.Write(pid) through the fd: goes to the inode that p created,
-                          whether that inode is still linked at the path or not; then Lock returns nil
-     Read p       55, 60  os.ReadFile(path)+Atoi: whatever inode is at the path NOW;
-                          absent -> remove (57); empty/unparsable -> remove (62); a PID -> probe it
-     Probe p      65      processRunning(pid) = kill(pid,0): dead -> remove (66); alive -> wait.
-                          (DESIGN lists 55+60+65 as one step [Read]; the code makes two system
+   What each step mirrors (functions of workspace_locker.go):
+     TryCreate p  Lock -> createLockFile: os.Link(tmp, path).  The PID was written before into a
+                          temporary file (os.CreateTemp in the lock directory, Write, Chmod, Close)
+                          that only p knows the name of; link(2) then gives that inode -- WITH its
+                          content -- the lock path as a second name, and fails with EEXIST if the
+                          path names anything, exactly like O_CREATE|O_EXCL.  Success = a FRESH inode
+                          containing p's PID is now named by the path and Lock returns nil (the
+                          deferred os.Remove(tmp) drops the private name only); EEXIST = go and
+                          read the file.
+                          The temporary file is private to p: creating, writing and unlinking it is
+                          invisible to every other process and never touches the lock path, so it is
+                          not an event.  A crash between the write of the temporary file and the
+                          link leaves no lock file: it is [Crash p] at [Idle].
+     Read p       Lock    os.ReadFile(path)+Atoi: whatever inode is at the path NOW;
+                          absent -> remove; empty/unparsable -> remove; a PID -> probe it
+     Probe p      Lock    processRunning(pid) = kill(pid,0): dead -> remove; alive -> wait.
+                          (DESIGN lists read+parse+probe as one step [Read]; the code makes two system
                           calls with an arbitrary delay in between -- the holder may unlock and
                           exit, and another process may create a fresh file, between them -- so
                           the model keeps them apart.  Merging them back is the special case of
                           schedules in which [Probe p] directly follows [Read p].)
-     Remove p     57/62/66 os.Remove(path): unconditional, unlinks whatever the path names now
-     Wake p       79-83   the one-second timer fires; back to the top of the loop
-     Cancel p     80-81   ctx.Done() wins the select (SIGINT/SIGTERM cancel the build's context):
-                          Lock returns ctx.Err() WITHOUT making any file-system call; the process
+     Remove p     Lock    os.Remove(path): unconditional, unlinks whatever the path names now
+     Wake p       Lock    the one-second timer fires; back to the top of the loop
+     Cancel p     Lock    ctx.Done() wins the select (SIGINT/SIGTERM cancel the build's context):
+                          Lock returns ctx.Err() WITHOUT making any call on the lock path; the process
                           lives on (pc GaveUp) and never acts on the lock again.  The context is
                           only consulted in that select: a cancellation that arrives anywhere else
                           is observed at the next Waiting.
-     Unlock p     88-90   os.Remove(path): unconditional
+     Unlock p     Unlock  os.Remove(path): unconditional
      Crash p      --      SIGKILL / os.Exit anywhere (cmds/build.go exits without Unlock on failure)
 
-   [creator] is ghost state (who created an inode, None for a pre-existing file); it is only
-   read by the boolean guard [read_before_write] and never influences [step]. *)
+   History: until the repair of finding C10-F1 the file was created empty (O_CREATE|O_EXCL) and the
+   PID written by a second call; the model had a pc [Created i] and an event [WritePid p] between
+   [TryCreate] and [Held], and mutual exclusion needed a second guard, read_before_write.  Both are
+   gone: an inode created by a process has its content from the step that makes it visible
+   (Lock_proofs.lock_file_never_empty).
+
+   [creator] is ghost state (who created an inode, None for a pre-existing file); it never
+   influences [step] and is only mentioned by theorems. *)
 From Coq Require Import Arith Bool List.
 Import ListNotations.
 
@@ -34,9 +48,8 @@ Definition pid := nat.
 Definition inode := nat.
 
 Inductive pc : Type :=
-| Idle                                   (* about to call os.OpenFile (top of the loop) *)
-| Created (i : inode)                    (* exclusive create succeeded, PID not yet written *)
-| WantRead                               (* create failed with EEXIST, about to os.ReadFile *)
+| Idle                                   (* about to call os.Link (top of the loop) *)
+| WantRead                               (* link failed with EEXIST, about to os.ReadFile *)
 | WantProbe (i : inode) (q : pid)        (* read PID q out of inode i, about to kill(q,0) *)
 | WantRemove (ex : option inode)         (* decided to os.Remove; ex = the inode it examined *)
 | Waiting                                (* in the select, timer pending *)
@@ -46,7 +59,7 @@ Inductive pc : Type :=
 | Dead.
 
 Inductive event : Type :=
-| TryCreate (p : pid) | WritePid (p : pid) | Read (p : pid) | Probe (p : pid)
+| TryCreate (p : pid) | Read (p : pid) | Probe (p : pid)
 | Remove (p : pid) | Wake (p : pid) | Unlock (p : pid) | Crash (p : pid)
 | Cancel (p : pid).
 
@@ -75,17 +88,10 @@ Definition step (s : state) (e : event) : option state :=
       match lock s with
       | None =>
         let i := next s in
-        Some (mkState (Some i) (upd (content s) i None) (upd (creator s) i (Some p)) (S i)
-                      (upd (pcs s) p (Created i)))
+        Some (mkState (Some i) (upd (content s) i (Some p)) (upd (creator s) i (Some p)) (S i)
+                      (upd (pcs s) p (Held i)))
       | Some _ => Some (set_pc s p WantRead)
       end
-    | _ => None
-    end
-  | WritePid p =>
-    match pcs s p with
-    | Created i =>
-      Some (mkState (lock s) (upd (content s) i (Some p)) (creator s) (next s)
-                    (upd (pcs s) p (Held i)))
     | _ => None
     end
   | Read p =>
@@ -143,7 +149,7 @@ Fixpoint run (s : state) (evs : list event) : option state :=
 
 Definition actor (e : event) : pid :=
   match e with
-  | TryCreate p | WritePid p | Read p | Probe p | Remove p | Wake p | Unlock p | Crash p
+  | TryCreate p | Read p | Probe p | Remove p | Wake p | Unlock p | Crash p
   | Cancel p => p
   end.
 
@@ -154,7 +160,7 @@ Definition holds_b (s : state) (p : pid) : bool := is_held (pcs s p).
 
 (* the inode a process has created (and not yet given up) *)
 Definition owner_of (c : pc) : option inode :=
-  match c with Created i | Held i => Some i | _ => None end.
+  match c with Held i => Some i | _ => None end.
 Definition owns (s : state) (p : pid) (i : inode) : Prop := owner_of (pcs s p) = Some i.
 
 (* ---- initial states: every process has not started or is dead; any lock file -------- *)
@@ -165,25 +171,7 @@ Definition init (s : state) : Prop :=
 Definition stale (s : state) (i : inode) : Prop :=
   match content s i with None => True | Some q => pcs s q = Dead end.
 
-(* ---- the two step kinds that break mutual exclusion, as boolean guards --------------- *)
-Definition is_created (c : pc) (i : inode) : bool :=
-  match c with Created j => Nat.eqb i j | _ => false end.
-
-(* a Read that observes an inode whose creator has not yet written its PID *)
-Definition read_before_write (s : state) (e : event) : bool :=
-  match e with
-  | Read p =>
-    match pcs s p, lock s with
-    | WantRead, Some i =>
-      match creator s i with
-      | Some r => is_created (pcs s r) i
-      | None => false
-      end
-    | _, _ => false
-    end
-  | _ => false
-  end.
-
+(* ---- the one step kind that breaks mutual exclusion, as a boolean guard --------------- *)
 Definition opt_inode_eqb (a b : option inode) : bool :=
   match a, b with
   | None, None => true
@@ -202,10 +190,9 @@ Definition remove_of_unexamined_inode (s : state) (e : event) : bool :=
   | _ => false
   end.
 
-Definition guarded (s : state) (e : event) : bool :=
-  negb (read_before_write s e) && negb (remove_of_unexamined_inode s e).
+Definition guarded (s : state) (e : event) : bool := negb (remove_of_unexamined_inode s e).
 
-(* reachability: all steps / steps on which neither guard fires *)
+(* reachability: all steps / steps on which the guard does not fire *)
 Inductive reachable (s0 : state) : state -> Prop :=
 | r_init : reachable s0 s0
 | r_step : forall s e s', reachable s0 s -> step s e = Some s' -> reachable s0 s'.
@@ -213,7 +200,7 @@ Inductive reachable (s0 : state) : state -> Prop :=
 Inductive reachable_g (s0 : state) : state -> Prop :=
 | rg_init : reachable_g s0 s0
 | rg_step : forall s e s', reachable_g s0 s -> step s e = Some s' ->
-    read_before_write s e = false -> remove_of_unexamined_inode s e = false ->
+    remove_of_unexamined_inode s e = false ->
     reachable_g s0 s'.
 
 (* ---- executable helpers for the driver and for the witnesses ------------------------ *)
@@ -231,7 +218,6 @@ Definition mk_init (dead : list pid) (lk : option (option pid)) : state :=
 Definition next_event (s : state) (p : pid) : option event :=
   match pcs s p with
   | Idle => Some (TryCreate p)
-  | Created _ => Some (WritePid p)
   | WantRead => Some (Read p)
   | WantProbe _ _ => Some (Probe p)
   | WantRemove _ => Some (Remove p)
@@ -248,36 +234,37 @@ Fixpoint count_holders (s : state) (n : nat) : nat :=
   | S k => (if holds_b s k then 1 else 0) + count_holders s k
   end.
 
-(* run a schedule and report: final state, did [read_before_write] fire, did
-   [remove_of_unexamined_inode] fire, was there ever more than one holder among pids < n *)
-Fixpoint run_flags (n : nat) (s : state) (evs : list event) (b u v : bool)
-  : option (state * bool * bool * bool) :=
+(* run a schedule and report: final state, did [remove_of_unexamined_inode] fire, was there ever
+   more than one holder among pids < n *)
+Fixpoint run_flags (n : nat) (s : state) (evs : list event) (u v : bool)
+  : option (state * bool * bool) :=
   match evs with
-  | [] => Some (s, b, u, v || Nat.ltb 1 (count_holders s n))
+  | [] => Some (s, u, v || Nat.ltb 1 (count_holders s n))
   | e :: r =>
     match step s e with
     | None => None
     | Some s' =>
-      run_flags n s' r (b || read_before_write s e) (u || remove_of_unexamined_inode s e)
-                (v || Nat.ltb 1 (count_holders s n))
+      run_flags n s' r (u || remove_of_unexamined_inode s e) (v || Nat.ltb 1 (count_holders s n))
     end
   end.
 
-(* W1: 0 creates; 1 finds the file, reads it while it is still empty, removes it, creates its
-   own and writes; 0 then writes its PID into the unlinked inode: both are past Lock(). *)
+(* W1 (regression; finding C10-F1, repaired): 0 creates; 1 finds the file and reads it.  Before the
+   repair the file was still empty at that point, 1 removed it and acquired, and 0 wrote its PID
+   into the unlinked inode (TryCreate 0; TryCreate 1; Read 1; Remove 1; TryCreate 1; WritePid 1;
+   WritePid 0: both past Lock()).  Now the file has 0's PID from the step that creates it: 1 reads
+   it, probes 0, finds it alive and waits. *)
 Definition w1_init : state := mk_init [] None.
-Definition w1_sched : list event :=
-  [TryCreate 0; TryCreate 1; Read 1; Remove 1; TryCreate 1; WritePid 1; WritePid 0].
+Definition w1_sched : list event := [TryCreate 0; TryCreate 1; Read 1; Probe 1].
 
-(* W2: the file names dead process 2; 0 and 1 both read and probe it; 0 removes it, creates
-   and writes; 1 then removes 0's FRESH file, creates and writes: both are past Lock(). *)
+(* W2: the file names dead process 2; 0 and 1 both read and probe it; 0 removes it and creates
+   its own; 1 then removes 0's FRESH file and creates its own: both are past Lock(). *)
 Definition w2_init : state := mk_init [2] (Some (Some 2)).
 Definition w2_sched : list event :=
   [TryCreate 0; TryCreate 1; Read 0; Read 1; Probe 0; Probe 1;
-   Remove 0; TryCreate 0; WritePid 0; Remove 1; TryCreate 1; WritePid 1].
+   Remove 0; TryCreate 0; Remove 1; TryCreate 1].
 
 (* NC: 0 holds; 1 contends, waits and is interrupted; 2 contends and waits (the interrupted
    waiter left 0's file alone); 0 unlocks; 2 wakes up and acquires. *)
 Definition nc_sched : list event :=
-  [TryCreate 0; WritePid 0; TryCreate 1; Read 1; Probe 1; Cancel 1;
-   TryCreate 2; Read 2; Probe 2; Unlock 0; Wake 2; TryCreate 2; WritePid 2].
+  [TryCreate 0; TryCreate 1; Read 1; Probe 1; Cancel 1;
+   TryCreate 2; Read 2; Probe 2; Unlock 0; Wake 2; TryCreate 2].
